@@ -19,8 +19,10 @@ def run_monitor_programs(programs, variant='default'):
     return {p.id: implrun.records(p, impl[p.id]) for p in programs}
 
 
-def violation(pid, prog, message, site=None, extra=None):
+def violation(pid, prog, message, site=None, extra=None, twin=None):
     v = {'message': message, 'replay': {'program': prog_to_json(prog)}, 'program': prog.describe()}
+    if twin is not None:
+        v['replay']['twin'] = prog_to_json(twin)
     if site:
         v['site'] = site
     if extra:
@@ -139,6 +141,25 @@ def setter_monitor(pid):
     def mon(api, rng, budget, variants):
         thorough = budget >= 20000
         programs = setter_programs(api, rng, budget, thorough)
+        # numeric setters from the reset content and as a second request after another value: write() compares every register of a
+        # split value with the content it believes the device holds
+        k = 0
+        for mk in sorted(api.maker):
+            for st in api.maker[mk]['setters']:
+                kinds = [kind for _a, kind in st['args']]
+                if not kinds or any(kd not in BOUNDARY for kd in kinds):
+                    continue
+                for v in BOUNDARY[kinds[0]]:
+                    args = [v if kd == kinds[0] else rng.choice(BOUNDARY[kd]) for kd in kinds]
+                    calls = background_loads(api, rng, mk, zero=True) + [Call(mk, setters=[(st['method'], args)])]
+                    programs.append(fresh('sz%d' % k, calls, ctor='i2c'))
+                    k += 1
+                for _ in range(12 if not thorough else 200):
+                    a1 = [rng.choice(BOUNDARY[kd]) for kd in kinds]
+                    a2 = [rng.choice(BOUNDARY[kd]) for kd in kinds]
+                    calls = background_loads(api, rng, mk, zero=True) + [Call(mk, setters=[(st['method'], a1)]), Call(mk, setters=[(st['method'], a2)])]
+                    programs.append(fresh('sz%d' % k, calls, ctor='i2c'))
+                    k += 1
         recs = run_monitor_programs(programs)
         viol = []
         for p in programs:
@@ -157,6 +178,8 @@ def setter_monitor(pid):
 def replay(pid, api, rp):
     """re-run a recorded failing input on the implementation with the property's own judgement"""
     prog = prog_from_json(rp['program'])
+    if 'twin' in rp:
+        prog.twin = prog_from_json(rp['twin'])
     recs = run_monitor_programs([prog])[prog.id]
     judge = PROPS[pid].get('judge')
     msg = judge(prog, recs) if judge else None
@@ -166,8 +189,8 @@ def replay(pid, api, rp):
 PROPS = {}
 
 PROPS['C02'] = {
-    'targets': ['spec/SetterSpec.vo'],
-    'theorems': setter_theorems,
+    'targets': ['spec/SetterSpec.vo', 'spec/BuilderProps.vo'],
+    'theorems': lambda: setter_theorems() + builder_theorems(),
     'corr_gen': lambda api, rng, n: setter_programs(api, rng, n),
     'corr_n': (300, 6000),
     'monitor': setter_monitor('C02'),
@@ -811,6 +834,8 @@ def mon_c12(api, rng, budget, variants):
         addr = 0x15 if var == 'alt' else 0x14
         programs = api_programs(api, rng, budget // len(variants), ctors=('i2c',))
         programs += [Prog('all%s' % var, 'i2c', rich_prefix() + all_operations(api, rng), fifo=bytes([0x48, 2, 0x80, 0]), pos=bytes([0, 8] * 3), neg=bytes(6))]
+        # the only caller-chosen length: FIFO reads of every size class, beyond the FIFO's capacity too (the burst is as long as the buffer)
+        programs += [Prog('len%s' % var, 'i2c', [Call('read_fifo_frames', [n]) for n in (0, 1, 255, 256, 1023, 1024, 1025, 1031, 2048, 4096)], fifo=bytes([0x48, 2, 0x80, 0]))]
         impl = corr.run_impl(programs, var, dump_each=True, tag='mon12')
         for p in programs:
             recs = implrun.records(p, impl[p.id])
@@ -913,7 +938,7 @@ def mon_c14(api, rng, budget, variants):
             if msg:
                 break
         if msg:
-            viol.append(violation('C14', p, msg))
+            viol.append(violation('C14', p, msg, twin=q))
     # the same bus failure on both transports: transaction t fails over I2C <-> the data call of transaction t fails over SPI
     ops = all_operations(api, rng)
     probes = [Prog('pr%d' % i, 'i2c', rich_prefix() + [op], fifo=bytes([0x48, 2]), pos=bytes([0, 8] * 3), neg=bytes(6)) for i, op in enumerate(ops)]
@@ -936,10 +961,10 @@ def mon_c14(api, rng, budget, variants):
         cases += 1
         for x, y in zip(ra[1:], rb[1:]):
             if (x.status, x.err, x.payload) != (y.status, y.err, y.payload):
-                viol.append(violation('C14', p, 'with the same register transaction failing on the bus, call %r returns %s over I2C and %s over SPI' % (x.call, x.result_str(), y.result_str())))
+                viol.append(violation('C14', p, 'with the same register transaction failing on the bus, call %r returns %s over I2C and %s over SPI' % (x.call, x.result_str(), y.result_str()), twin=q))
                 break
             if x.regs != y.regs:
-                viol.append(violation('C14', p, 'with the same register transaction failing on the bus, the device states differ after %r' % (x.call,)))
+                viol.append(violation('C14', p, 'with the same register transaction failing on the bus, the device states differ after %r' % (x.call,), twin=q))
                 break
     # the constructors under the same bus failure: the id read (and the SPI dummy read) failing on the bus must be reported alike
     ct = []
@@ -950,7 +975,7 @@ def mon_c14(api, rng, budget, variants):
         x, y = implrun.records(p, cimpl[p.id])[0], implrun.records(q, cimpl[q.id])[0]
         cases += 1
         if (x.status, x.err) != (y.status, y.err):
-            viol.append(violation('C14', p, 'with the constructor\'s register read failing on the bus, new_i2c returns %s and new_spi returns %s' % (x.result_str(), y.result_str())))
+            viol.append(violation('C14', p, 'with the constructor\'s register read failing on the bus, new_i2c returns %s and new_spi returns %s' % (x.result_str(), y.result_str()), twin=q))
     return {'cases': cases, 'violations': viol[:20], 'samples': [base[0].describe()],
             'notes': ['every program run over both real transports against identical simulated chips; decoded register-level journals, results and register files compared; '
                       'constructors with the same register read failing on the bus over both transports; '
@@ -958,7 +983,23 @@ def mon_c14(api, rng, budget, variants):
 
 
 def judge_c14(prog, recs):
+    """replay: the recorded twin (the same program over the other transport, with the corresponding failure) is run again"""
+    q = getattr(prog, 'twin', None) or Prog(prog.id + 's', 'spi', prog.calls, prog.ro, prog.fifo, prog.pos, prog.neg)
+    rb = run_monitor_programs([q])[q.id]
+    if (recs[0].status, recs[0].err) != (rb[0].status, rb[0].err):
+        return 'constructors: %s over %s, %s over %s' % (recs[0].result_str(), prog.ctor, rb[0].result_str(), q.ctor)
+    for x, y in zip(recs[1:], rb[1:]):
+        if (x.status, x.payload, x.err) != (y.status, y.payload, y.err):
+            return 'call %r: %s over %s, %s over %s' % (x.call, x.result_str(), prog.ctor, y.result_str(), q.ctor)
+        if x.regs != y.regs:
+            return 'call %r: device states differ afterwards' % (x.call,)
+        if not (x.call.faults or y.call.faults) and implrun.reg_events(x.raw) != implrun.reg_events(y.raw):
+            return 'call %r: register-level accesses differ' % (x.call,)
     return None
+
+
+def sample_up_to(rng, pop, n):
+    return pop if n >= len(pop) else rng.sample(pop, n)
 
 
 def fault_sweep_programs(api, rng, ctors, max_k=24, data_only=False):
@@ -1064,18 +1105,20 @@ PROPS['C13'] = {
                  'is below 0x80, the call ends with chip-select high and the decoder idle, and no byte is clocked while chip-select is high',
 }
 PROPS['C14'] = {
-    'targets': ['props/C14.vo'],
-    'theorems': [('props.C14', n) for n in ['c14_every_operation', 'c14_programs']],
+    'targets': ['props/C14.vo', 'proofs/I2cSim.vo'],
+    'theorems': [('props.C14', n) for n in ['c14_every_operation', 'c14_programs']] + [('proofs.I2cSim', n) for n in ['i2c_is_reg', 'i2c_api_call']],
     'corr_gen': lambda api, rng, n: api_programs(api, rng, n, ctors=('i2c', 'spi')),
     'corr_n': (200, 3000), 'monitor': mon_c14, 'monitor_n': (200, 4000), 'judge': judge_c14, 'trusted_extra': GENERIC_TB,
     'statement': 'for every API operation, and by induction for every program of API calls: from quiet buses holding equal chips and equal '
                  'shadows, the runs over I2C and over SPI return the same values / errors, leave the same shadow and chip and perform the same '
-                 'register-level reads and writes (both realise the register-level semantics `sem`)',
+                 'register-level reads and writes (both realise the register-level semantics `sem`); under bus failures the I2C transport is proved to '
+                 'coincide with the register-level transport call by call (i2c_api_call: same results, error tokens, shadow, chip under the same fault plan); '
+                 'the corresponding SPI statement under failures is not a theorem (pin failures have no I2C counterpart) - fault twins in the monitor',
 }
 PROPS['C15'] = {
     'targets': ['props/C15.vo'],
     'theorems': [('props.C15', n) for n in ['c15_i2c', 'c15_spi', 'c15_register_level', 'c15_error_kinds', 'c15_api_call_spi', 'c15_api_call_i2c']],
-    'corr_gen': lambda api, rng, n: rng.sample(fault_sweep_programs(api, rng, ('i2c', 'spi'), max_k=10), n),
+    'corr_gen': lambda api, rng, n: sample_up_to(rng, fault_sweep_programs(api, rng, ('i2c', 'spi'), max_k=10 if n < 2000 else 24), n),
     'corr_n': (300, 4000), 'monitor': mon_c15, 'monitor_n': (1200, 40000), 'judge': check_fault_report, 'trusted_extra': GENERIC_TB,
     'statement': 'for every program of the free monad (hence every API operation), every transport, world and index k: if the k-th fallible '
                  'HAL call fails and is reached, the run is Failed with IOError k (bus call) or ChipSelectPinError k (pin call), the failing '
@@ -1085,7 +1128,7 @@ PROPS['C15'] = {
 PROPS['C20'] = {
     'targets': ['props/C20.vo'],
     'theorems': [('props.C20', n) for n in ['c20_write', 'c20_read', 'c20_next_access']],
-    'corr_gen': lambda api, rng, n: rng.sample(fault_sweep_programs(api, rng, ('spi',), max_k=10), n),
+    'corr_gen': lambda api, rng, n: sample_up_to(rng, fault_sweep_programs(api, rng, ('spi',), max_k=10 if n < 2000 else 24), n),
     'corr_n': (300, 4000), 'monitor': mon_c20, 'monitor_n': (600, 20000), 'judge': check_cs_release, 'trusted_extra': GENERIC_TB,
     'statement': 'for every address, value and burst length: a failing data transfer of spi write_register / read_register returns that '
                  'transfer\'s IOError, the journal ends with the chip-select release, the line is high and the decoder idle, the chip is '
@@ -1280,6 +1323,30 @@ def reset_programs(api, rng, n):
     return out
 
 
+def c11_compare(p, ra, rb, n_hist):
+    """(history; soft_reset; follow-up) against (fresh; follow-up): message or None; None also when the reset did not return Ok"""
+    if len(ra) <= n_hist:
+        return None
+    rs = ra[n_hist]
+    if not rs.ok():
+        return None
+    ev = implrun.reg_events(rs.raw)
+    if ev != [('w', 0x7E, 0xB6), ('r', 0x0D, 1)]:
+        return 'soft_reset issued %r' % (ev,)
+    # Ok means: command acknowledged AND event register read (reset flag cleared); over I2C one HAL call is one transaction
+    if rs.call.faults and rs.call.faults[0] < len(rs.raw):
+        return ('soft_reset returned Ok although its bus transaction %d (%s) failed' %
+                (rs.call.faults[0], 'the reset command' if rs.call.faults[0] == 0 else 'the event-register read that clears the reset flag'))
+    for x, y in zip(ra[n_hist + 1:], rb[1:]):
+        if (x.status, x.payload, x.err, x.tok) != (y.status, y.payload, y.err, y.tok):
+            return 'after (history; soft_reset) %r returns %s, on a fresh driver %s' % (x.call, x.result_str(), y.result_str())
+        if implrun.reg_events(x.raw) != implrun.reg_events(y.raw):
+            return 'after (history; soft_reset) %r issues %r, on a fresh driver %r' % (x.call, implrun.reg_events(x.raw), implrun.reg_events(y.raw))
+        if x.regs[25:124] + x.regs[125:126] != y.regs[25:124] + y.regs[125:126]:
+            return 'device state after %r differs from the fresh run' % (x.call,)
+    return None
+
+
 def mon_c11(api, rng, budget, variants):
     programs = reset_programs(api, rng, budget // 2)
     recs = run_monitor_programs(programs)
@@ -1288,34 +1355,26 @@ def mon_c11(api, rng, budget, variants):
         if not hasattr(p, 'twin'):
             continue
         ra, rb = recs[p.id], recs[p.twin.id]
-        if len(ra) <= p.n_hist:
-            continue
-        rs = ra[p.n_hist]
-        if not rs.ok():
-            continue
-        cases += 1
-        ev = implrun.reg_events(rs.raw)
-        msg = None
-        if ev != [('w', 0x7E, 0xB6), ('r', 0x0D, 1)]:
-            msg = 'soft_reset issued %r' % (ev,)
-        for x, y in zip(ra[p.n_hist + 1:], rb[1:]):
-            if msg:
-                break
-            if (x.status, x.payload, x.err, x.tok) != (y.status, y.payload, y.err, y.tok):
-                msg = 'after (history; soft_reset) %r returns %s, on a fresh driver %s' % (x.call, x.result_str(), y.result_str())
-            elif implrun.reg_events(x.raw) != implrun.reg_events(y.raw):
-                msg = 'after (history; soft_reset) %r issues %r, on a fresh driver %r' % (x.call, implrun.reg_events(x.raw), implrun.reg_events(y.raw))
-            elif x.regs[25:124] + x.regs[125:126] != y.regs[25:124] + y.regs[125:126]:
-                msg = 'device state after %r differs from the fresh run' % (x.call,)
+        if len(ra) > p.n_hist and ra[p.n_hist].ok():
+            cases += 1
+        msg = c11_compare(p, ra, rb, p.n_hist)
         if msg:
             viol.append(violation('C11', p, msg))
     return {'cases': cases, 'violations': viol[:20], 'samples': [programs[0].describe()],
             'notes': ['differential: (history with rejected and bus-failed calls; soft_reset; follow-up) vs (fresh driver + fresh chip; follow-up); the '
-                      'follow-up repeats history requests so that stale belief would coincide with a pre-reset value; registers 0x19..0x7B, 0x7D compared']}
+                      'follow-up repeats history requests so that stale belief would coincide with a pre-reset value; registers 0x19..0x7B, 0x7D compared; '
+                      'an Ok reset must have had both its transactions succeed']}
 
 
 def judge_c11(prog, recs):
-    return None
+    """replay: the twin (fresh driver, the calls after the first soft_reset) is rebuilt from the program"""
+    idx = [i for i, c in enumerate(prog.calls) if c.op == 'soft_reset']
+    if not idx:
+        return None
+    n_hist = idx[0] + 1
+    twin = Prog(prog.id + '_fresh', prog.ctor, prog.calls[n_hist:], prog.ro, b'', prog.pos, prog.neg)
+    rb = run_monitor_programs([twin])[twin.id]
+    return c11_compare(prog, recs, rb, n_hist)
 
 
 PROPS['C11'] = {
@@ -1490,6 +1549,14 @@ def check_builder_call(r, which):
 def builder_monitor(pid):
     def mon(api, rng, budget, variants):
         programs = builder_state_programs(api, rng, budget)
+        # a request cut short by a bus failure, then the same request again: the retry is judged like any other call, from the device
+        # state the failure left behind (a register the device already holds must not be rewritten; the final state is the request)
+        for k, base in enumerate(builder_state_programs(api, rng, max(40, budget // 5))):
+            last = base.calls[-1]
+            if last.op not in api.maker or not last.setters:
+                continue
+            cut = Call(last.op, last.args, last.setters, faults=[rng.randint(0, 5)])
+            programs.append(Prog('br%d' % k, 'i2c', base.calls[:-1] + [cut, Call(last.op, last.args, last.setters)]))
         recs = run_monitor_programs(programs)
         viol, cases = [], 0
         for p in programs:
@@ -1539,7 +1606,7 @@ for pid_, extra, stmt in (
             'and only if the device held a different one at call time; foreign enable registers follow clear-then-restore (toggle_ok), own ones own_ok; '
             're-applying the current configuration writes no block register'),
 ):
-    names = {'C01': ['c01_coherent_history', 'c01_fifo_instance', 'keepsw_self_test', 'step_keepsw', 'c01_wf_every_exit', 'c01_state_history', 'c01_initial_ready', 'c01_every_builder_call_ready'], 'C07': ['c07_meaning'], 'C08': ['c08_no_read', 'c08_entry_meaning', 'c08_reapply']}[pid_]
+    names = {'C01': ['c01_coherent_history', 'c01_fifo_instance', 'keepsw_self_test', 'step_keepsw', 'c01_wf_every_exit', 'c01_state_history', 'c01_initial_ready', 'c01_every_builder_call_ready', 'c01_all_ready_history', 'c01_all_ready_history_i2c'], 'C07': ['c07_meaning'], 'C08': ['c08_no_read', 'c08_entry_meaning', 'c08_reapply']}[pid_]
     PROPS[pid_] = {
         'targets': ['spec/BuilderProps.vo', 'props/%s.vo' % pid_] + (['spec/WfThms.vo'] if pid_ == 'C01' else []),
         'theorems': (lambda names=names, pid_=pid_: builder_theorems() + [('props.' + pid_, n) for n in names] + (wf_theorems() if pid_ == 'C01' else [])),
